@@ -79,4 +79,40 @@ theorem rawTicks_le (A P D : Int) (hA : 0 < A) (hD : 0 < D) (hP : P ≤ 125 * D)
   have := Int.ediv_lt_of_lt_mul (by omega : 0 < D * 1000) h3
   omega
 
+/-- dividing a non-negative number by a larger positive divisor gives no more -/
+theorem ediv_antitone (a c c' : Int) (ha : 0 ≤ a) (hc : 0 < c) (hcc : c ≤ c') : a / c' ≤ a / c := by
+  have h0 : 0 ≤ a / c' := Int.ediv_nonneg ha (by omega)
+  have h1 : a / c' * c' ≤ a := Int.ediv_mul_le _ (by omega)
+  have h2 : a / c' * c ≤ a / c' * c' := Int.mul_le_mul_of_nonneg_left hcc h0
+  exact Int.le_ediv_of_mul_le hc (by omega)
+
+/-- the tick size does not grow when the tempo rises (positive denominators) -/
+theorem getTicksize_antitone (freq tfN tfD rrN rrD bpm bpm' : Int) (hd : 0 < tfD) (hr : 0 < rrD)
+    (hb : bpm ≤ bpm') (h0 : 0 ≤ getTicksize freq tfN tfD rrN rrD bpm) :
+    0 ≤ getTicksize freq tfN tfD rrN rrD bpm' ∧
+    getTicksize freq tfN tfD rrN rrD bpm' ≤ getTicksize freq tfN tfD rrN rrD bpm := by
+  unfold getTicksize at h0 ⊢
+  by_cases hv : freq ≤ 0 ∨ bpm ≤ 0 ∨ tfN ≤ 0 ∨ rrN ≤ 0
+  · rw [if_pos hv] at h0; omega
+  rw [if_neg hv] at h0 ⊢
+  have hv' : ¬ (freq ≤ 0 ∨ bpm' ≤ 0 ∨ tfN ≤ 0 ∨ rrN ≤ 0) := by omega
+  rw [if_neg hv']
+  have hQ : 0 < tfD * rrD := Int.mul_pos hd hr
+  have hqb : tfD * rrD * bpm ≤ tfD * rrD * bpm' := Int.mul_le_mul_of_nonneg_left hb (by omega)
+  have hqb0 : 0 < tfD * rrD * bpm := Int.mul_pos hQ (by omega)
+  by_cases hm : freq * (tfN * rrN) > intMax * (tfD * rrD * bpm * 1000)
+  · rw [if_pos hm] at h0; omega
+  rw [if_neg hm] at h0 ⊢
+  have hm' : ¬ freq * (tfN * rrN) > intMax * (tfD * rrD * bpm' * 1000) := by
+    have : intMax * (tfD * rrD * bpm * 1000) ≤ intMax * (tfD * rrD * bpm' * 1000) :=
+      Int.mul_le_mul_of_nonneg_left (by omega) (by simp [intMax])
+    omega
+  rw [if_neg hm']
+  have hP : 0 ≤ freq * (tfN * rrN) := Int.mul_nonneg (by omega) (Int.mul_nonneg (by omega) (by omega))
+  have ha := ediv_antitone (freq * (tfN * rrN)) (tfD * rrD * bpm * 1000) (tfD * rrD * bpm' * 1000) hP (by omega) (by omega)
+  simp only [rawTicks, minTicks_eq] at h0 ⊢
+  generalize freq * (tfN * rrN) / (tfD * rrD * bpm' * 1000) = x at ha ⊢
+  generalize freq * (tfN * rrN) / (tfD * rrD * bpm * 1000) = y at ha h0 ⊢
+  by_cases hx : x < 8 <;> by_cases hy : y < 8 <;> simp only [hx, hy, if_true, if_false] at h0 ⊢ <;> omega
+
 end Xmp.Tick
